@@ -438,7 +438,7 @@ def run(rep, tier, only=None):
     if tier == "thorough":
         wcases = [(l, f, p) for l in ("typescript", "kotlin") for f in _c14.FORMS for p in (("field", "map-value") if l == "typescript" else ("enum-struct",))]
     else:
-        wcases = [("typescript", "single", "field"), ("kotlin", "same-name-c", "map-value")]
+        wcases = [("typescript", "single", "field"), ("kotlin", "same-name-c", "map-value"), ("typescript", "same-name-both-imported", "field"), ("kotlin", "same-name-both-imported", "vec")]
     rep.bounds["hash-ws"] = "the folder-mode pipeline from source text on %d of the C14 workspace templates under every hash iteration order, up to 700 paths each (beyond: a prefix of the orders, reported as not exhaustive)" % len(wcases)
     groups = [("fold", "case_fold", cases), ("hash", "case_hash", hcases), ("hash-ws", "case_hash_ws", wcases)]
     for gname, fn, cs in groups:
